@@ -58,16 +58,13 @@ try:
         res["demo_confirms"] = res.get("demo_clean_passes") is True and res.get("demo_mutant_passes") is False
         # checks against the mutant
         res["checks"] = {}
-        bak = tempfile.mkdtemp(prefix="evbak_")
-        sh("cp -r /verif/evidence/. %s/" % bak)
         for cid in checks:
             rc, out = sh("./check %s" % cid, cwd="/verif", e=dict(env, VERIF_REPO_DIR=mut), timeout=1800)
             lines = [l for l in out.splitlines() if l.startswith(("VIOLATION", "KNOWN-FINDING")) or " ok " in l or " FAIL " in l]
             res["checks"][cid] = {"exit": rc, "lines": lines[:6]}
-        sh("cp -r %s/. /verif/evidence/" % bak); shutil.rmtree(bak, ignore_errors=True)
 finally:
     shutil.rmtree(clean, ignore_errors=True); shutil.rmtree(mut, ignore_errors=True)
     import hashlib
     _h = hashlib.sha1(mut.encode()).hexdigest()[:10]
-    sh("rm -rf /tmp/verif_harness_%s /tmp/verif_work_%s" % (_h, _h))
+    sh("rm -rf /tmp/verif_harness_%s /tmp/verif_work_%s /tmp/verif_coq_%s" % (_h, _h, _h))
 print(json.dumps(res, indent=1))
